@@ -369,3 +369,176 @@ int main() {
     return 0;
 }
 """ % {"n": n}
+
+
+# ------------------------------------------------------------------------------------------------
+# C12: a program compiled against the generated static offsets
+
+def static_offsets_sources(perm, checked):
+    """domain + main for the two-stage build: stage A (no slots.hpp) writes slots.hpp and prints what it
+    dispatches; stage B is the same source compiled with slots.hpp present. `perm` orders the method
+    declarations (which decides the slots)."""
+    base = "::yorel::yomm2::policy::debug" if checked else "::yorel::yomm2::policy::release"
+    methods = [
+        ("m1", "int", "(virtual_<R1&>)", "r1"),
+        ("m2", "int", "(int, virtual_<R2&>)", "i r2"),
+        ("m3", "int", "(virtual_<R1&>, virtual_<R2&>)", "r1 r2"),
+        ("m4", "int", "(virtual_<R1&>, int, virtual_<R1&>, virtual_<R2&>)", "r1 i r1 r2"),
+        ("m5", "int", "(virtual_<R2&>, virtual_<R2&>, int)", "r2 r2 i"),
+    ]
+    decls = "\n".join("declare_method(%s, %s, %s);" % (methods[i][1], methods[i][0], methods[i][2]) for i in perm)
+    domain = r'''
+#ifndef DOMAIN_HPP
+#define DOMAIN_HPP
+#include <yorel/yomm2/policy.hpp>
+struct P : %(base)s::rebind<P>::replace<::yorel::yomm2::policy::error_handler, ::yorel::yomm2::policy::throw_error> {};
+#define YOMM2_DEFAULT_POLICY P
+#include <yorel/yomm2/keywords.hpp>
+#if __has_include("slots.hpp")
+#include "slots.hpp"
+#define HAVE_SLOTS 1
+#else
+#define HAVE_SLOTS 0
+#endif
+struct R1 { virtual ~R1() {} };
+struct R2 { virtual ~R2() {} };
+struct X1 : R1 {};
+struct Y1 : R1 {};
+struct X2 : R2 {};
+struct Z : X1, X2 {};
+struct W : Y1, X2 {};
+%(decls)s
+#endif
+''' % {"base": base, "decls": decls}
+    main = r'''
+#include "domain.hpp"
+#include <yorel/yomm2/generator.hpp>
+#include <cstdio>
+#include <fstream>
+#include <iostream>
+using namespace yorel::yomm2;
+register_classes(R1, R2, X1, Y1, X2, Z, W);
+define_method(int, m1, (R1&)) { return 10; }
+define_method(int, m1, (X1&)) { return 11; }
+define_method(int, m1, (Z&)) { return 12; }
+define_method(int, m2, (int i, R2&)) { return 20 + i; }
+define_method(int, m2, (int i, W&)) { return 25 + i; }
+define_method(int, m3, (R1&, R2&)) { return 30; }
+define_method(int, m3, (X1&, X2&)) { return 31; }
+define_method(int, m3, (Z&, Z&)) { return 32; }
+define_method(int, m4, (R1&, int i, R1&, R2&)) { return 40 + i; }
+define_method(int, m4, (Y1&, int i, X1&, X2&)) { return 45 + i; }
+define_method(int, m5, (X2&, X2&, int i)) { return 50 + i; }
+define_method(int, m5, (Z&, W&, int i)) { return 55 + i; }
+template<class F> static void run(const char* what, F f) {
+    try { std::printf("%s -> %d\n", what, f()); }
+    catch (const resolution_error& e) { std::printf("%s -> resolution %d\n", what, (int)e.status); }
+    catch (const static_slot_error&) { std::printf("%s -> static_slot\n", what); }
+    catch (const static_stride_error&) { std::printf("%s -> static_stride\n", what); }
+}
+int main(int argc, char** argv) {
+    auto compiler = update<P>();
+    if (argc > 1) {
+        std::ofstream f(argv[1]);
+        generator g;
+        g.add_forward_declarations().write_forward_declarations(f);
+        g.write_static_offsets(f);
+    }
+    std::printf("static %d %d %d %d %d\n",
+        (int)detail::has_static_offsets<method_class(int, m1, (virtual_<R1&>))>::value,
+        (int)detail::has_static_offsets<method_class(int, m2, (int, virtual_<R2&>))>::value,
+        (int)detail::has_static_offsets<method_class(int, m3, (virtual_<R1&>, virtual_<R2&>))>::value,
+        (int)detail::has_static_offsets<method_class(int, m4, (virtual_<R1&>, int, virtual_<R1&>, virtual_<R2&>))>::value,
+        (int)detail::has_static_offsets<method_class(int, m5, (virtual_<R2&>, virtual_<R2&>, int))>::value);
+    for (auto& m : P::methods) {
+        std::printf("ss %s [", m.name.data());
+        std::size_t n = 2 * m.arity() - 1;
+        for (std::size_t i = 0; i < n; ++i) std::printf(i ? ",%zu" : "%zu", m.slots_strides_ptr[i]);
+        std::printf("]\n");
+    }
+    R1 r1; R2 r2; X1 x1; Y1 y1; X2 x2; Z z; W w;
+    R1* a1[] = {&r1, &x1, &y1, &z, &w};
+    R2* a2[] = {&r2, &x2, &z, &w};
+    const char* n1[] = {"R1", "X1", "Y1", "Z", "W"};
+    const char* n2[] = {"R2", "X2", "Z", "W"};
+    char buf[128];
+    for (int i = 0; i < 5; i++) { std::snprintf(buf, sizeof buf, "m1(%s)", n1[i]); run(buf, [&] { return m1(*a1[i]); }); }
+    for (int j = 0; j < 4; j++) { std::snprintf(buf, sizeof buf, "m2(3,%s)", n2[j]); run(buf, [&] { return m2(3, *a2[j]); }); }
+    for (int i = 0; i < 5; i++) for (int j = 0; j < 4; j++) {
+        std::snprintf(buf, sizeof buf, "m3(%s,%s)", n1[i], n2[j]); run(buf, [&] { return m3(*a1[i], *a2[j]); }); }
+    for (int i = 0; i < 5; i++) for (int k = 0; k < 5; k++) for (int j = 0; j < 4; j++) {
+        std::snprintf(buf, sizeof buf, "m4(%s,1,%s,%s)", n1[i], n1[k], n2[j]); run(buf, [&] { return m4(*a1[i], 1, *a1[k], *a2[j]); }); }
+    for (int i = 0; i < 4; i++) for (int j = 0; j < 4; j++) {
+        std::snprintf(buf, sizeof buf, "m5(%s,%s,2)", n2[i], n2[j]); run(buf, [&] { return m5(*a2[i], *a2[j], 2); }); }
+    return 0;
+}
+'''
+    return domain, main
+
+
+def static_offsets_case(name, perm, checked, tampers=(), timeout=900):
+    """two-stage build. Returns dict: stageA / stageB -> (rc, stdout, stderr), slots (text of slots.hpp),
+    tamper results: list of (description, rc, stdout, stderr)"""
+    import re, shutil
+    d = os.path.join(CACHE, "so-" + name)
+    shutil.rmtree(d, ignore_errors=True)
+    os.makedirs(d)
+    domain, main = static_offsets_sources(perm, checked)
+    open(os.path.join(d, "domain.hpp"), "w").write(domain)
+    open(os.path.join(d, "main.cpp"), "w").write(main)
+    inc = os.path.join(REPO, "include")
+    res = {}
+
+    def build(exe, extra_inc=None):
+        cmd = ["g++", "-std=c++17", "-O0", "-g0", "-I" + inc, "-I" + d]
+        if extra_inc:
+            cmd = ["g++", "-std=c++17", "-O0", "-g0", "-I" + extra_inc, "-I" + inc, "-I" + d]
+        r = subprocess.run(cmd + [os.path.join(d, "main.cpp"), "-o", os.path.join(d, exe)], stdout=subprocess.PIPE, stderr=subprocess.PIPE, text=True)
+        return r
+
+    def run(exe, args=()):
+        try:
+            r = subprocess.run([os.path.join(d, exe)] + list(args), stdout=subprocess.PIPE, stderr=subprocess.PIPE, text=True, timeout=timeout)
+            return (r.returncode, r.stdout, r.stderr[-2000:])
+        except subprocess.TimeoutExpired:
+            return (-1, "", "timeout")
+    b = build("a.exe")
+    if b.returncode != 0:
+        res["stageA"] = (None, "", "compile error:\n" + b.stderr[-3000:])
+        return res
+    gen_dir = os.path.join(d, "gen")
+    os.makedirs(gen_dir)
+    res["stageA"] = run("a.exe", [os.path.join(gen_dir, "slots.hpp")])
+    try:
+        res["slots"] = open(os.path.join(gen_dir, "slots.hpp")).read()
+    except OSError:
+        res["slots"] = ""
+    b = build("b.exe", extra_inc=gen_dir)
+    res["stageB"] = (None, "", "compile error:\n" + b.stderr[-3000:]) if b.returncode != 0 else run("b.exe")
+    res["tampers"] = []
+    for k, (mname, which, idx, delta) in enumerate(tampers):
+        # change one number of one specialisation
+        text = res["slots"]
+        pat = re.compile(r"(static_offsets<[^>]*YoMm2_S_%s[^{]*\{static constexpr std::size_t slots\[\] = \{)([^}]*)(\};(?: static constexpr std::size_t strides\[\] = \{)?)([^}]*)" % mname)
+        m = pat.search(text)
+        if not m:
+            res["tampers"].append(("%s %s[%d]" % (mname, which, idx), None, "", "specialisation not found"))
+            continue
+        slots = [x.strip() for x in m.group(2).split(",") if x.strip()]
+        strides = [x.strip() for x in m.group(4).split(",") if x.strip()] if "strides" in m.group(3) else []
+        tgt = slots if which == "slot" else strides
+        if idx >= len(tgt):
+            continue
+        tgt[idx] = str(int(tgt[idx]) + delta)
+        new = m.group(1) + ", ".join(slots) + m.group(3) + (", ".join(strides) if "strides" in m.group(3) else m.group(4))
+        t_dir = os.path.join(d, "t%d" % k)
+        os.makedirs(t_dir)
+        open(os.path.join(t_dir, "slots.hpp"), "w").write(text[:m.start()] + new + text[m.end():])
+        b = build("t%d.exe" % k, extra_inc=t_dir)
+        if b.returncode != 0:
+            res["tampers"].append(("%s %s[%d]%+d" % (mname, which, idx, delta), None, "", "compile error:\n" + b.stderr[-2000:]))
+        else:
+            rc, so, se = run("t%d.exe" % k)
+            res["tampers"].append(("%s %s[%d]%+d" % (mname, which, idx, delta), rc, so, se))
+    shutil.rmtree(d, ignore_errors=True)
+    return res
